@@ -479,3 +479,76 @@ def stale_yields(ctx: Ctx, fi: FuncInfo, loop: ast.AST
         if not ok:
             out.append((y, v.id))
     return out
+
+
+TRANSFORMING_MODEL_OPTIONS = {
+    "str_strip_whitespace", "str_to_lower", "str_to_upper", "str_max_length",
+    "coerce_numbers_to_str", "anystr_strip_whitespace", "anystr_lower",
+    "anystr_upper", "max_anystr_length", "min_anystr_length",
+    "str_min_length", "use_enum_values"}
+
+
+def model_rewrites(ctx: Ctx, cls_name: str) -> list[tuple[ast.AST, str]]:
+    """Constructs of a pydantic model class that rewrite the values passing
+    through it: transforming ``model_config`` / ``Config`` options,
+    validators that return something else than their argument, constrained
+    string types (``constr(..)``, ``StringConstraints``) and ``Field``
+    arguments that rewrite strings."""
+    cls = ctx.index.cls(cls_name)
+    probs: list[tuple[ast.AST, str]] = []
+    for st in cls.node.body:
+        cfg_call = None
+        if isinstance(st, (ast.Assign, ast.AnnAssign)):
+            tgt = st.targets[0] if isinstance(st, ast.Assign) else st.target
+            if isinstance(tgt, ast.Name) and tgt.id == "model_config" \
+                    and st.value is not None:
+                cfg_call = st.value
+            ann = getattr(st, "annotation", None)
+            for part in (ann, st.value):
+                if part is None:
+                    continue
+                for c in ast.walk(part):
+                    if isinstance(c, ast.Call) and (dotted(c.func) or ""
+                                                    ).split(".")[-1] in (
+                            "constr", "StringConstraints", "conbytes"):
+                        probs.append((st, f"{unparse(c)[:50]}: the string "
+                                          "is rewritten / rejected"))
+                    if isinstance(c, ast.Call) and (dotted(c.func) or ""
+                                                    ).split(".")[-1] == \
+                            "Field":
+                        for k in c.keywords:
+                            if k.arg in ("strip_whitespace", "to_lower",
+                                         "to_upper", "max_length",
+                                         "min_length", "pattern"):
+                                probs.append((st, f"Field({k.arg}=..)"))
+        if cfg_call is not None:
+            keys = [k.arg for k in cfg_call.keywords] if isinstance(
+                cfg_call, ast.Call) else [
+                k.value for k in getattr(cfg_call, "keys", [])
+                if isinstance(k, ast.Constant)]
+            for k in keys:
+                if k in TRANSFORMING_MODEL_OPTIONS:
+                    probs.append((st, f"model_config {k}: strings are "
+                                      "rewritten"))
+        if isinstance(st, ast.ClassDef) and st.name == "Config":
+            for x in st.body:
+                if isinstance(x, ast.Assign) and isinstance(
+                        x.targets[0], ast.Name) and x.targets[0].id in \
+                        TRANSFORMING_MODEL_OPTIONS:
+                    probs.append((x, f"Config.{x.targets[0].id}: strings "
+                                     "are rewritten"))
+        if isinstance(st, ast.FunctionDef) and any(
+                ((dotted(d.func) if isinstance(d, ast.Call) else dotted(d))
+                 or "").split(".")[-1] in ("field_validator", "validator",
+                                            "model_validator",
+                                            "root_validator")
+                for d in st.decorator_list):
+            vparam = st.args.args[1].arg if len(st.args.args) > 1 else None
+            for r in ast.walk(st):
+                if isinstance(r, ast.Return) and r.value is not None:
+                    v = r.value
+                    if not (isinstance(v, ast.Name) and v.id == vparam):
+                        probs.append((r, f"validator {st.name} returns "
+                                         f"'{unparse(v)[:40]}' instead of "
+                                         "the value it was given"))
+    return probs
